@@ -42,6 +42,23 @@ type nodeSpec struct {
 	c     int
 	gated bool // pass | split | fan only: the action blocks until the harness releases it
 	outs  map[string]edge
+	more  map[string][]edge // further links of the same out-port (one Write reaches every linked in-port)
+}
+
+// links lists every link of an out-port.
+func (n nodeSpec) links(name string) []edge {
+	var es []edge
+	if e, ok := n.outs[name]; ok {
+		es = append(es, e)
+	}
+	return append(es, n.more[name]...)
+}
+
+// portReq identifies a port of a node in the reference reading: requests that passed it.
+type portReq struct {
+	node int
+	out  bool
+	name string
 }
 
 type flowSpec struct {
@@ -53,8 +70,10 @@ func (fs flowSpec) String() string {
 	var parts []string
 	for i, n := range fs.nodes {
 		var es []string
-		for name, e := range n.outs {
-			es = append(es, fmt.Sprintf("%s>%d.%s", name, e.to, e.port))
+		for name := range n.outs {
+			for _, e := range n.links(name) {
+				es = append(es, fmt.Sprintf("%s>%d.%s", name, e.to, e.port))
+			}
 		}
 		sort.Strings(es)
 		g := ""
@@ -230,8 +249,10 @@ func build(fs flowSpec, agent *runtime.Agent) (*flow, error) {
 	f.table = symbol.NewTable(opt)
 	for i, ns := range fs.nodes {
 		ports := map[string][]spec.Port{}
-		for name, e := range ns.outs {
-			ports[name] = []spec.Port{{Name: fmt.Sprintf("n%d", e.to), Port: e.port}}
+		for name := range ns.outs {
+			for _, e := range ns.links(name) {
+				ports[name] = append(ports[name], spec.Port{Name: fmt.Sprintf("n%d", e.to), Port: e.port})
+			}
 		}
 		sb := &symbol.Symbol{
 			Spec: &spec.Meta{ID: uuid.Must(uuid.NewV7()), Kind: ns.kind, Namespace: "default", Name: fmt.Sprintf("n%d", i), Ports: ports},
@@ -302,6 +323,22 @@ type interp struct {
 	// events the last step must cause
 	entered  []enteredEv
 	arrivals []arrival
+	// the request log: how many requests passed each port (one per Write on an out-port, whatever
+	// the number of links; one per packet delivered to an in-port)
+	reqs map[portReq]int
+}
+
+// emit: node n writes v on its out-port `name`: one request on that port, delivered to every link.
+func (ip *interp) emit(n int, name string, it item) {
+	es := ip.fs.nodes[n].links(name)
+	if len(es) == 0 {
+		return
+	}
+	ip.reqs[portReq{n, true, name}]++
+	for _, e := range es {
+		ip.reqs[portReq{e.to, false, e.port}]++
+		ip.deliver(e.to, e.port, it)
+	}
 }
 
 type enteredEv struct {
@@ -310,7 +347,7 @@ type enteredEv struct {
 }
 
 func newInterp(fs flowSpec) *interp {
-	return &interp{fs: fs, joinQ: map[int]*[2][]int{}, nodes: map[int]*nstate{}}
+	return &interp{fs: fs, joinQ: map[int]*[2][]int{}, nodes: map[int]*nstate{}, reqs: map[portReq]int{}}
 }
 
 func (ip *interp) clear() { ip.entered, ip.arrivals = nil, nil }
@@ -336,9 +373,7 @@ func (ip *interp) deliver(n int, inPort string, it item) {
 	ns := ip.fs.nodes[n]
 	switch ns.kind {
 	case "src":
-		if e, ok := ns.outs["out"]; ok {
-			ip.deliver(e.to, e.port, it)
-		}
+		ip.emit(n, "out", it)
 	case "sink":
 		ip.arrivals = append(ip.arrivals, arrival{sink: n, value: it.value, write: it.write})
 		ip.writes[it.write].outstanding++
@@ -363,9 +398,7 @@ func (ip *interp) deliver(n int, inPort string, it item) {
 		if len(q[0]) > 0 && len(q[1]) > 0 {
 			a, b := q[0][0], q[1][0]
 			q[0], q[1] = q[0][1:], q[1][1:]
-			if e, ok := ns.outs["out"]; ok {
-				ip.deliver(e.to, e.port, item{a + b, it.write})
-			}
+			ip.emit(n, "out", item{a + b, it.write})
 		}
 	}
 }
@@ -398,11 +431,7 @@ func (ip *interp) finish(n int) {
 	it := st.cur
 	st.busy = false
 	ip.writes[it.write].inside--
-	fwd := func(name string, v int) {
-		if e, ok := ns.outs[name]; ok {
-			ip.deliver(e.to, e.port, item{v, it.write})
-		}
-	}
+	fwd := func(name string, v int) { ip.emit(n, name, item{v, it.write}) }
 	switch ns.kind {
 	case "pass":
 		fwd("out", it.value+ns.c)
